@@ -364,7 +364,7 @@ var queryStages = []string{
 	`limit(3; repeat(1))`, `.a.b.c`, `."quoted"."k2"`, `.[] as [$a] ?// $a | $a`, `1.5e3 + .25 - 1E-2 * 7 / 2 % 3`,
 	`. == 1 and . != 2 or (. < 3 | not)`, `.a += 1 | .b -= 1 | .c *= 2 | .d /= 2 | .e %= 2 | .f //= 0`, `[limit(2; .[])] | first`,
 	`{"a": {b: [1, {"c": null}]}}`, `input_line_number`, `[paths(type == "number")]`, `to_entries | map(select(.value)) | from_entries`,
-	`"é\n\t\"q\" \\ /"`, `..`, `[.[]?]`, `(1, 2) as $n | $n * $n`,
+	`"é\n\t\"q\" \\ /"`, `..`, `[.[]?]`, `(1, 2) as $n | $n * $n`, `m::f(1; $m::v) | lib::g`, `$__prog_name | @sh "echo \(.)"`, `.a as {b: [$c, {$d}]} ?// [$c, $d] | [$c, $d]`,
 }
 
 var queryStrings = map[string][]string{
@@ -400,6 +400,9 @@ func buildQuery(p *prng, stages int, chars, eolKind string, module bool, breakEv
 	src := strings.Join(parts, " | ")
 	if module {
 		src = strings.Join(parts, " ")
+		if p.intn(3) == 0 {
+			src = `module {"name": "m", "version": 1}; ` + src
+		}
 	}
 	if breakEvery <= 0 {
 		return src
